@@ -100,7 +100,6 @@ def run(ctx):
     obs = ctx.run("seqnum", ctx.write_cases("seqnum", all_cases), crate=CRATE)
     for v in ctx.judge("seqnum", "TraceSeqNum", obs, {}):
         c = by_case.get(v["case"])
-        rcv = ""
         ctx.add_violation("C12:%s" % v["clause"], "%s at step %d of case %s (%s)" % (v["clause"], v["i"], v["case"], c.get("gen")),
                           c, engine="seqnum")
     nsteps, ndrift, firsts = drift(all_cases, obs)
@@ -109,8 +108,12 @@ def run(ctx):
         o = json.loads(line)
         npresent += o.get("ev") == "Present"
         nemit += len(o.get("emits", [])) if o.get("ev") == "Send" else 0
-    nt = 0
+    nt, seen = 0, set()
     for c in all_cases:
+        key = canon([c["cfg"], [[s.get(k) for k in ("ev", "side", "n", "kind", "w", "m", "rcv")] for s in c["steps"]]])
+        if key in seen:
+            continue
+        seen.add(key)
         evs = [s["ev"] for s in c["steps"]]
         if "Move" in evs and "Present" in evs[evs.index("Move"):]:
             nt += 1
@@ -124,9 +127,10 @@ def run(ctx):
                        "MixedRequestIds) placed at any point; the same histories are generated (exhaustive for 4 messages / 1 move; "
                        "simulation for 6 messages / 2 moves and for a signed channel) and replayed on the real SendBuffer, MessageWriter, "
                        "server TcpTransport::process_chunk, client TransportState and Chunker::validate_chunks/decode; "
-                       "non-trivial = an adversary move followed by a message presented to a receiver")
+                       "distinct by channel configuration and action sequence; non-trivial = an adversary move followed by a message presented to a receiver")
     ctx.notes["cases_per_generator"] = {n: len(cs) for n, cs in gens}
     ctx.notes["steps_replayed"] = nsteps
+    ctx.notes["distinct_cases"] = len(seen)
     ctx.notes["chunk_headers_emitted"] = nemit
     ctx.notes["messages_presented"] = npresent
     ctx.notes["drift"] = {"cases_with_L1_mismatch": ndrift, "first": firsts[:3]}
